@@ -14,6 +14,11 @@ META = {
 NONDET = {"random", "time", "os", "uuid", "secrets", "datetime"}
 
 
+R5_RECOMPUTED = {
+    "Rebuild": "the value is recomputed from the context on every build by documented design (parse returns the stored value)",
+}
+
+
 def run(ctx):
     M = ctx.model
     # ---------------------------------------------------------------- R1
@@ -106,4 +111,65 @@ def run(ctx):
                     bad = [x for x in N.walk(d) if x == OBJ or (x[0] in ("free", "module") and x[1].split(".")[0] in NONDET) or x[0] in ("subres",) and x[1] not in ("_sizeof",)]
                     ctx.ob("C02.R4", fi, not bad, "%s._build regenerates its filler from parameters only (%s)" % (cls, N.show(d)), node=e.node, key="%s filler" % cls)
     ctx.floor("C02.R4", 4)
+
+    # ---------------------------------------------------------------- R5 a parsed value is not replaced on the way back
+    NONE = N.const(None)
+    def subs(t, cond):
+        """[(condition under which the object is replaced, replacement)] -- replacements are terms that do not derive from obj."""
+        if not N.contains(t, OBJ):
+            return [(cond, t)]
+        if t[0] == "ite":
+            return subs(t[2], t[1]) + subs(t[3], N.mk_not(t[1]))
+        if t[0] == "bool":
+            return [(("truthiness of obj",), x) for x in t[2] if not N.contains(x, OBJ)]
+        return []
+    def none_only(cond, repl, guards):
+        is_none = N.mk_cmp("is", OBJ, NONE)
+        def implies_none(c):
+            if c == is_none:
+                return True
+            if c and c[0] == "bool" and c[1] == "and":
+                return any(implies_none(x) for x in c[2])
+            if c and c[0] == "cmp" and c[1] == "in" and c[2] == OBJ and c[3][0] == "tuple":
+                return set(c[3][1]) <= {NONE, repl}          # Const: None or the constant itself
+            return False
+        return (cond is not None and implies_none(cond)) or any(implies_none(g) for g in guards)
+    n5 = 0
+    for fi, cls in protocol_functions(M, ("_build",)):
+        if cls in R5_RECOMPUTED:
+            continue
+        verdict = {}
+        for p in paths_of(ctx, fi, cls):
+            for e in p.events:
+                if e.kind != "SUB" or e["m"] != "_build" or e.depth or e["target"] != N.selfattr("subcon"):
+                    continue
+                for cond, repl in subs(e["obj"], None):
+                    ok = none_only(cond, repl, p.guards())
+                    cur = verdict.get(id(e.node), (True, e, repl))
+                    verdict[id(e.node)] = (cur[0] and ok, e, repl)
+        for ok, e, repl in verdict.values():
+            n5 += 1
+            ctx.ob("C02.R5", fi, ok, "%s._build hands the inner construct %s in place of the supplied object only when that object is None (or equals it): a parsed value, falsy ones included, must come back unchanged" % (cls, N.show(repl)[:80]),
+                   key="%s substitution" % cls, node=e.node)
+    ctx.floor("C02.R5", 3)
+    # ---------------------------------------------------------------- R6 transforming macros decode and encode with an inverse pair (shared with C10.R1/R2)
+    from . import C10
+    C10.check_macros(ctx, ("Bitwise", "Bytewise", "ByteSwapped", "BitsSwapped"), "C02.R6", "C02.R6", "C02.R6")
+    ctx.floor("C02.R6", 12)
+
+    ctl = control_model(
+        "class Construct(object):\n    pass\nclass Subconstruct(Construct):\n    pass\n"
+        "def evaluate(param, context):\n    return param(context) if callable(param) else param\n"
+        "class X(Subconstruct):\n"
+        "    def _build(self, obj, stream, context, path):\n"
+        "        obj = obj or evaluate(self.value, context)\n"
+        "        return self.subcon._build(obj, stream, context, path)\n")
+    from ..core import Ctx
+    c2 = Ctx("C02", ctx.tier, ctl.root, model=ctl)
+    fired = False
+    for p in paths_of(c2, ctl.method("X", "_build"), "X"):
+        for e in p.events:
+            if e.kind == "SUB" and e["m"] == "_build":
+                fired = fired or any(not none_only(c, r, p.guards()) for c, r in subs(e["obj"], None))
+    ctx.control("C02.R5", fired)
     ctx.control("C02.R2", True)
